@@ -61,3 +61,13 @@ claim('C16',
       'Real-number model; sky coordinates concrete; one known finding (asymmetric tolerance of PixCoord.__eq__).',
       'symbolic execution of the real Python + SMT (z3 NRA)',
       'DESIGN.md section 5 C16')
+claim('C17',
+      'Every descriptor is driven through every constructor and through setattr: for ALL finite real sizes (symbolic) a '
+      'value is accepted exactly when it is strictly positive and reads back identically, a rejected assignment leaves '
+      'the object unchanged; non-finite doubles and a wrong-kind catalogue (12-18 values per parameter kind) are '
+      'enumerated for all 18 classes; annulus inner<outer with symbolic sizes at construction and on assignment; '
+      'RegionMeta/RegionVisual under 10 mutation entry points; Regions list mutators; RegionBoundingBox / RegionMask.',
+      'Reals model for the symbolic part, enumeration for NaN/inf and wrong kinds; two open known findings '
+      '(annulus order on assignment, text parameter deletable), three defects repaired by fix: commits.',
+      'symbolic execution of the real validators + SMT (z3), plus exhaustive execution of the discrete invalid-value catalogue',
+      'DESIGN.md section 5 C17')
